@@ -265,6 +265,55 @@ pub(crate) fn try_build_with(env: &Env, w: &Worlds, p: &Params, scn: Scn, old: O
     Ok((sim, 1))
 }
 
+/// A user call made behind the protocol handlers' back right after the scenario was reached
+/// (0 = none): the handlers keep derived state in memory (cached filter hashes, check point
+/// positions, matched blocks) that the call does not refresh.
+pub(crate) const POSTS: [u8; 3] = [0, 1, 2];
+
+pub(crate) fn apply_post(env: &Env, sim: &mut Sim, post: u8) {
+    match post {
+        // set_scripts all: both scripts again from block 0 (filter syncing is rewound to 0)
+        1 => crate::verif::explore::user_set_scripts(sim, 0, &[(env.scripts.a.clone(), true, 0), (env.scripts.t.clone(), false, 0)]),
+        // set_scripts partial: one more script from block 0
+        2 => crate::verif::explore::user_set_scripts(sim, 1, &[(env.scripts.b.clone(), true, 0)]),
+        _ => {}
+    }
+    let _ = sim.c().out.take_sent();
+}
+
+/// Every honest message of the complete sync history of the main world (scripts registered, one
+/// peer, FIFO), de-duplicated: what a peer could replay at any later moment.
+pub(crate) fn history_alphabet(env: &Env, w: &Worlds) -> Vec<(Proto, String, ckb_network::bytes::Bytes)> {
+    let (mut sim, _) = build(env, w, Scn::Connected);
+    scen::register(
+        &sim,
+        &[
+            (env.scripts.a.clone(), ScriptType::Lock, 0),
+            (env.scripts.t.clone(), ScriptType::Type, 0),
+        ],
+    );
+    let mut out: Vec<(Proto, String, ckb_network::bytes::Bytes)> = vec![];
+    let mut idle = 0;
+    for _ in 0..800 {
+        if sim.queue.is_empty() {
+            sim.advance(10);
+            sim.tick_all();
+            idle += 1;
+            if idle > 6 {
+                break;
+            }
+            continue;
+        }
+        idle = 0;
+        let m = sim.queue[0].clone();
+        if !out.iter().any(|(_, _, d)| d == &m.data) {
+            out.push((m.proto.clone(), format!("hist/{}", m.note), m.data.clone()));
+        }
+        sim.deliver(0);
+    }
+    out
+}
+
 struct Sweep<'a> {
     env: &'a Env,
     w: &'a Worlds,
@@ -276,6 +325,7 @@ struct Sweep<'a> {
     bans: u64,
     sites: BTreeMap<String, u64>,
     last_panicked: bool,
+    post_label: &'static str,
 }
 
 impl<'a> Sweep<'a> {
@@ -334,8 +384,8 @@ impl<'a> Sweep<'a> {
             };
             self.report.violation(
                 format!("abort/{}", p.site()),
-                format!("{} [scenario {:?}, {:?} message from peer {}, mutant {}]", p.describe(), scn, proto, peer, label),
-                json!({"scenario": format!("{:?}", scn), "protocol": format!("{:?}", proto), "peer": peer, "mutant": label, "message_hex": data_hex}),
+                format!("{} [scenario {:?}{}, {:?} message from peer {}, mutant {}]", p.describe(), scn, self.post_label, proto, peer, label),
+                json!({"scenario": format!("{:?}", scn), "user_call_before": self.post_label, "protocol": format!("{:?}", proto), "peer": peer, "mutant": label, "message_hex": data_hex}),
             );
             rebuild = true;
         }
@@ -344,8 +394,9 @@ impl<'a> Sweep<'a> {
 
     /// `part` 0: single-message mutants of the pending answers; 1: two-message sequences and the
     /// cross alphabet (work splitting).
-    fn sweep_scenario(&mut self, scn: Scn, thorough: bool, cross: &[(Proto, String, ckb_network::bytes::Bytes)], part: usize) {
+    fn sweep_scenario(&mut self, scn: Scn, thorough: bool, cross: &[(Proto, String, ckb_network::bytes::Bytes)], part: usize, post: u8) {
         let (mut sim, n_home) = build(self.env, self.w, scn);
+        apply_post(self.env, &mut sim, post);
         let homes: Vec<InFlight> = sim.queue.iter().take(n_home).cloned().collect();
         let mut before = sim.c().light_print();
         self.report.count("scenarios", if part == 0 { 1 } else { 0 });
@@ -362,6 +413,7 @@ impl<'a> Sweep<'a> {
                         build(self.env, self.w, scn)
                     };
                     sim = s;
+                    apply_post(self.env, &mut sim, post);
                     before = sim.c().light_print();
                 }
             }};
@@ -451,13 +503,14 @@ impl<'a> Sweep<'a> {
                     self.rebuilds += 1;
                     let (s2, _) = if panicked { build(self.env, self.w, scn) } else { build_on(self.env, self.w, scn, Some(sim)) };
                     sim = s2;
+                    apply_post(self.env, &mut sim, post);
                     before = sim.c().light_print();
                 }
             }
         }
         // every honest message / structural mutant / bare variant of the whole alphabet in this
         // state, from the known peer and from a peer the client never connected
-        for (proto, label, data) in cross.iter().filter(|_| part == 1) {
+        for (proto, label, data) in cross.iter().filter(|_| part >= 1) {
             for peer in [1usize, 7] {
                 let l = format!("cross:{}", label);
                 go!(proto, peer, data.clone(), &l);
@@ -473,10 +526,20 @@ pub(crate) fn run(opts: &Opts, report: &mut Report) {
     } else {
         vec!["mini_dummy.toml"]
     };
-    let items = specs.len() * ALL_SCN.len() * 2;
+    // parts: 0 = single-message mutants of the pending answers; 1 = two-message sequences + cross
+    // alphabet; 2, 3 = the cross alphabet after a user call (set_scripts all / partial from
+    // block 0) made behind the handlers' back
+    const PARTS: usize = 4;
+    let items = specs.len() * ALL_SCN.len() * PARTS;
     let worker = crate::verif::props::shard::run("C10", opts, report, items, 16, |item, report| {
-        let part = item % 2;
-        let item = item / 2;
+        let part_raw = item % PARTS;
+        let item = item / PARTS;
+        let (part, post) = match part_raw {
+            0 => (0usize, 0u8),
+            1 => (1, 0),
+            2 => (2, 1),
+            _ => (2, 2),
+        };
         let env = Env::new(specs[item / ALL_SCN.len()]);
         let scn = ALL_SCN[item % ALL_SCN.len()];
         let w = worlds(&env);
@@ -498,12 +561,24 @@ pub(crate) fn run(opts: &Opts, report: &mut Report) {
         for (proto, name, data) in mutate::all_variants() {
             cross.push((proto, format!("bare/{}", name), data));
         }
+        // every honest message of the whole sync history (a peer may replay any of them later),
+        // and the structural mutants of the filter protocol ones
+        for (proto, name, data) in history_alphabet(&env, &w) {
+            if !cross.iter().any(|(_, _, d)| d == &data) {
+                if proto == Proto::Filter {
+                    for m in mutate::structural(&proto, &data) {
+                        cross.push((proto.clone(), format!("{}/{}", name, m.label), m.data));
+                    }
+                }
+                cross.push((proto, name, data));
+            }
+        }
         for proto in [Proto::LightClient, Proto::Filter, Proto::Sync, Proto::Relay] {
             for (i, junk) in [vec![], vec![2u8, 3, 4, 5], vec![0xff; 64], vec![0u8; 64]].into_iter().enumerate() {
                 cross.push((proto.clone(), format!("junk{}", i), junk.into()));
             }
         }
-        report.count("cross_alphabet_size_x_scenarios", if part == 1 { cross.len() as u64 } else { 0 });
+        report.count("cross_alphabet_size_x_scenarios", if part >= 1 { cross.len() as u64 } else { 0 });
         let mut sweep = Sweep {
             env: &env,
             w: &w,
@@ -515,8 +590,13 @@ pub(crate) fn run(opts: &Opts, report: &mut Report) {
             bans: 0,
             sites: BTreeMap::new(),
             last_panicked: false,
+            post_label: match post {
+                1 => " after set_scripts(all, from block 0)",
+                2 => " after set_scripts(partial, one more script from block 0)",
+                _ => "",
+            },
         };
-        sweep.sweep_scenario(scn, thorough, &cross, part);
+        sweep.sweep_scenario(scn, thorough, &cross, part, post);
         let (d, r, p, c, b) = (sweep.deliveries, sweep.rebuilds, sweep.panics_seen, sweep.state_changes, sweep.bans);
         let sites = std::mem::take(&mut sweep.sites);
         drop(sweep);
@@ -525,7 +605,7 @@ pub(crate) fn run(opts: &Opts, report: &mut Report) {
         report.count("panics", p);
         report.count("deliveries_that_changed_state", c);
         report.count("bans", b);
-        report.count("states", if part == 0 { 1 } else { 0 });
+        report.count("states", if part == 0 || part == 2 { 1 } else { 0 });
         for (k, v) in sites {
             report.count(&format!("panic_site/{}", k), v);
         }
@@ -535,7 +615,7 @@ pub(crate) fn run(opts: &Opts, report: &mut Report) {
     }
     // a worker that died took the process down with it: that is exactly what C10 forbids
     for (item, why) in crate::verif::props::shard::DEAD.lock().unwrap().iter() {
-        let scn = ALL_SCN[(item / 2) % ALL_SCN.len()];
+        let scn = ALL_SCN[(item / 4) % ALL_SCN.len()];
         report.violation(
             format!("process-abort/{:?}", scn),
             format!("the worker process for scenario {:?} died: {}", scn, why),
